@@ -5,6 +5,7 @@ import (
 	"os"
 	"path/filepath"
 	"runtime"
+	"strings"
 
 	a "github.com/squadracorsepolito/acmelib"
 )
@@ -124,6 +125,69 @@ func genMutations(sp *Spec, r *rng) []mutation {
 					return err
 				}
 				if err := b.Buses[bi].RemoveNodeInterface(b.Nodes[ref.Node].EntityID()); err != nil {
+					return err
+				}
+				return b.Buses[bi].AddNodeInterface(ni)
+			}})
+		}
+	}
+	// REFUSED changes: they must leave no trace (not even in an index a later change consults)
+	onBus := map[int][]int{} // node -> buses it is attached to
+	for bi, bs := range sp.Buses {
+		for _, f := range bs.Ifs {
+			onBus[f.Ref.Node] = append(onBus[f.Ref.Node], bi)
+		}
+	}
+	for ni, buses := range onBus {
+		if len(buses) < 2 {
+			continue
+		}
+		ni := ni
+		for _, pair := range [][2]int{{buses[0], buses[1]}, {buses[1], buses[0]}} {
+			first, second := pair[0], pair[1]
+			// an id taken on [second] and free on [first]
+			for _, f := range sp.Buses[second].Ifs {
+				other := f.Ref.Node
+				if other == ni {
+					continue
+				}
+				ms = append(ms, mutation{"refused Node.UpdateID then AddNodeInterface(duplicate id)", func(b *Built) error {
+					taken := b.Nodes[other].ID()
+					for _, x := range b.Buses[first].NodeInterfaces() {
+						if x.Node().ID() == taken {
+							return fmt.Errorf("not applicable")
+						}
+					}
+					oldID := b.Nodes[ni].ID()
+					if err := b.Nodes[ni].UpdateID(taken); err == nil {
+						return nil // accepted (the id was free everywhere): an ordinary change
+					}
+					// the refusal must not have released the old id on the first bus
+					dup := a.NewNode(fmt.Sprintf("dup_%d_%d", ni, first), oldID, 1)
+					di, _ := dup.GetInterface(0)
+					return b.Buses[first].AddNodeInterface(di)
+				}})
+				break
+			}
+		}
+	}
+	for bi := range sp.Buses {
+		bi := bi
+		if len(sp.Buses) >= 2 && r.chance(50) {
+			oi := (bi + 1) % len(sp.Buses)
+			ms = append(ms, mutation{"refused Bus.UpdateName(existing)", func(b *Built) error {
+				return b.Buses[bi].UpdateName(b.Buses[oi].Name())
+			}})
+		}
+		if len(sp.Buses[bi].Ifs) >= 2 && r.chance(50) {
+			x, y := sp.Buses[bi].Ifs[0].Ref.Node, sp.Buses[bi].Ifs[1].Ref.Node
+			ms = append(ms, mutation{"refused Node.UpdateName(existing on the bus)", func(b *Built) error {
+				return b.Nodes[x].UpdateName(b.Nodes[y].Name())
+			}})
+			ref := sp.Buses[bi].Ifs[0].Ref
+			ms = append(ms, mutation{"refused Bus.AddNodeInterface(already attached)", func(b *Built) error {
+				ni, err := b.Nodes[ref.Node].GetInterface(ref.Num)
+				if err != nil {
 					return err
 				}
 				return b.Buses[bi].AddNodeInterface(ni)
@@ -264,12 +328,22 @@ func checkHistory(sp *Spec, seed uint64, idTies bool) historyResult {
 		if e0 == nil {
 			res.applied[m.name]++
 			res.muts++
+		} else if strings.HasPrefix(m.name, "refused") {
+			res.applied[m.name+" (refused)"]++
 		}
 		readAll(b0) // interleaved reads on b0 only
 	}
 	o0 := export(b0.Net)
 	o1 := export(b1.Net)
 	res.final, res.out = b0, o0
+	// the final model - after accepted AND refused changes - exports the same every time
+	for k := 0; k < 6; k++ {
+		res.compared++
+		if s, d := diff(o0, export(b0.Net), false); s != "" {
+			res.kind, res.detail = "history-repeat-"+s, fmt.Sprintf("after %d accepted changes and the refused ones, two exports of the unchanged model differ: %s", res.muts, d)
+			return res
+		}
+	}
 	res.compared++
 	// ids of b0 and b1 differ: wire modulo renaming, and only when no key falls back to the id
 	// (with same-named attributes / receivers the order follows the ids: reload comparison only)
